@@ -89,6 +89,17 @@ func c17RunImpl(c corr.Case) []string {
 					if err := afero.WriteReader(st.Fs, path, bytes.NewReader(data)); err != nil {
 						return "rt fail: " + err.Error()
 					}
+				case "writereader-plain", "safewrite-plain":
+					// a reader without WriteTo: io.Copy goes through its own 32 KiB buffer, which it reuses for every piece
+					var err error
+					if t[1] == "writereader-plain" {
+						err = afero.WriteReader(st.Fs, path, plainReader{bytes.NewReader(data)})
+					} else {
+						err = afero.SafeWriteReader(st.Fs, path, plainReader{bytes.NewReader(data)})
+					}
+					if err != nil {
+						return "rt fail: " + err.Error()
+					}
 				case "writereader-partial", "safewrite-partial":
 					// a reader that has been read from already: what is written is what is LEFT in it
 					rd := bytes.NewReader(append(genBytes(1+atoi(t[4])%9, 77), data...))
@@ -444,7 +455,7 @@ func c17Random(r *corr.Rand, tier string) []corr.Case {
 			}
 			lines = append(lines, "contains "+corr.Hex(content)+args)
 		}
-		kinds := []string{"writefile", "writereader", "safewrite", "safeexisting", "writefile-over", "writereader-over", "writereader-partial", "safewrite-partial"}
+		kinds := []string{"writefile", "writereader", "safewrite", "safeexisting", "writefile-over", "writereader-over", "writereader-partial", "safewrite-partial", "writereader-plain", "safewrite-plain"}
 		for k := 0; k < 2; k++ {
 			depth := 1 + rr.Intn(3)
 			p := ""
@@ -469,6 +480,11 @@ func c17Corpus() []corr.Case {
 		mk("case mem", "rt writereader-over 2f612f66 5 1", "rt writefile-over 2f612f67 0 1", "rt writereader-over 2f612f68 40000 3"),
 		mk("case cache0", "rt writereader-over 2f612f66 5 1", "rt writefile-over 2f612f67 9 1"),
 		mk("case os", "rt writereader-over 2f612f66 5 1", "rt writefile-over 2f612f67 9 1"),
+		// a name without any directory part; payloads larger than io.Copy's buffer through a reader without WriteTo
+		mk("case mem", "rt safeexisting "+corr.HexS("keep.txt")+" 40 1", "rt writereader "+corr.HexS("bare.bin")+" 9 2", "rt safewrite "+corr.HexS("bare2.bin")+" 9 3",
+			"rt writereader-plain 2f612f71 32769 4", "rt safewrite-plain 2f612f72 100000 5", "rt writereader-plain 2f612f73 5 6"),
+		mk("case os", "rt safeexisting "+corr.HexS("keep.txt")+" 40 1", "rt writereader-plain 2f612f71 70000 4"),
+		mk("case cow", "rt safeexisting "+corr.HexS("keep.txt")+" 40 1", "rt safewrite-plain 2f612f72 40000 5"),
 		mk("case mem", "rt writereader-partial 2f612f70 40 3", "rt safewrite-partial 2f612f71 0 4", "rt writereader-partial 2f612f72 40000 8"),
 		mk("case cow", "rt writereader-partial 2f612f70 40 3", "rt safewrite-partial 2f612f71 9 4"),
 		// the directory part is created as spelled: "static/../public" needs static as well as public
